@@ -325,8 +325,17 @@ func (propC15) Judge(sc *Scenario) *Verdict {
 	// observer twin: rendering help, the man page or the INI text observes the
 	// parser; inserting such an evaluation must not change what any other
 	// operation of the history produces (repeated evaluations agree).
-	if v.OK && len(sc.Ops) > 0 && len(sc.Scheds) > 0 {
-		pos := int(hashStr(mustJSON(sc.Ops)) % uint64(len(sc.Ops)+1))
+	firstParse := -1
+	for i, op := range sc.Ops {
+		if op.Kind == "parse" && firstParse < 0 {
+			firstParse = i
+		}
+	}
+	// (inserted only after the first ParseArgs of the history: ParseArgs itself
+	// completes the declaration, e.g. by adding the built-in help group, and an
+	// implementation may well let WriteHelp do the same)
+	if v.OK && firstParse >= 0 && len(sc.Scheds) > 0 {
+		pos := firstParse + 1 + int(hashStr(mustJSON(sc.Ops))%uint64(len(sc.Ops)-firstParse))
 		sc3 := *sc
 		obsOps := []Op{{Kind: "help"}, {Kind: "man"}, {Kind: "iniwrite", IniOpts: iniIncludeDefaults | iniIncludeComments}, {Kind: "iniwrite"}}
 		sc3.Ops = append(append(append([]Op{}, sc.Ops[:pos]...), obsOps...), sc.Ops[pos:]...)
